@@ -18,6 +18,10 @@ func main() {
 		os.Exit(1)
 	}
 	what := os.Args[1]
+	if what == "beliefs" {
+		dumpBeliefs(p)
+		return
+	}
 	if what == "dbg" {
 		dbg(p)
 		return
